@@ -129,6 +129,7 @@ NoResetWithoutBump ==
      /\ lastLevel' # 8 => dev' = dev
 Law == HigherUnchanged /\ LowerResetOnBump /\ NoResetWithoutBump
 \* well-formedness is preserved (state invariant, inductive)
-WF == /\ epoch >= -1 /\ major >= -1 /\ minor >= -1 /\ patch >= -1 /\ post >= -1 /\ dev >= -1 /\ num >= -1
+WF == /\ epoch \in Int /\ major \in Int /\ minor \in Int /\ patch \in Int /\ post \in Int /\ dev \in Int /\ num \in Int
+      /\ epoch >= -1 /\ major >= -1 /\ minor >= -1 /\ patch >= -1 /\ post >= -1 /\ dev >= -1 /\ num >= -1
       /\ label \in 0..3 /\ (label = 0 => num = -1)
 =============================================================================
